@@ -55,6 +55,8 @@ impl Decoder for ZmqCodec {
     type Item = Message;
 
     fn decode(&mut self, src: &mut BytesMut) -> Result<Option<Self::Item>, Self::Error> {
+        #[cfg(feature = "verif-hooks")]
+        let _verif_depth = crate::__verif::depth_enter();
         if src.len() < self.waiting_for {
             src.reserve(self.waiting_for - src.len());
             return Ok(None);
